@@ -145,8 +145,12 @@ func registerNatives(e *Engine) {
 			}
 		case *Term:
 			x.noSpec("assume")
+			if v, ok := x.evalModel(c); ok && v != 0 {
+				x.addPC(c)
+				return nil
+			}
 			// keep the path only if the assumption is satisfiable
-			r := x.check(c, false)
+			r := x.checkModel(c)
 			if r == Unknown {
 				x.end(endUnsupported, "solver returned unknown on an assumption")
 			}
@@ -200,6 +204,16 @@ func registerNatives(e *Engine) {
 	V("Concrete", func(x *Exec, fr *frame, a []Value) Value {
 		// Concrete(v uint64) uint64: forces a case split over the feasible values
 		return x.concreteInt(a[0], "verif.Concrete")
+	})
+	V("Tabulate", func(x *Exec, fr *frame, a []Value) Value {
+		// Tabulate(v uint64) uint64: same value, represented as a lookup table over the (few) input
+		// bits it depends on; identity when the support is not tiny
+		if t, ok := a[0].(*Term); ok {
+			if tt := x.st.tabulateTerm(t); tt != nil {
+				return fromTerm(tt)
+			}
+		}
+		return a[0]
 	})
 	V("IsSymbolic", func(x *Exec, fr *frame, a []Value) Value { return true })
 
@@ -613,6 +627,7 @@ func (x *Exec) flushInjectivity() {
 				ax := x.st.Implies(eqOut, eqIn)
 				if ax.op != OpConst {
 					x.pc = append(x.pc, ax)
+					x.model = nil
 				}
 			}
 		}
